@@ -40,6 +40,7 @@ TABLE = [
     ("a multi-objective evaluation invokes the fitness function once", "C13", "MultiObjectiveProblem.evaluate invoked the fitness function twice per evaluation (default aggregate recomputed it); counter != invocations; aggregate not from the recorded components (also C12 with a non-repeatable landscape)"),
     ("stack mapping treats an abstract type without productions", "C01", "stack mapping raised KeyError for an abstract type that has no production (shape S22)"),
     ("usable_grammar accepts reachable abstract types", "C05", "usable_grammar hit 'assert False' on a reachable abstract type without productions (shape S22)"),
+    ("ProgressivelyTerminalDecider respects production weights when its depth heuristic is zero", "C19", "ProgressivelyTerminalDecider fell through to the first alternative (even a zero-weight one) whenever its depth heuristic was zero for every alternative"),
     ("each FitnessK column of the CSV log", "C20", "every FitnessK column of the CSV log held the last fitness component (late-binding closure)"),
     ("SimpleGP's extra CSV fields each call their own callback", "C20", "every SimpleGP csv_extra_fields column was computed with the last callback (late-binding closure)"),
 ]
